@@ -25,6 +25,7 @@ REMAINING HYPOTHESES (each explicit in the statements; dependency diagram in not
 Only property theorems, non-vacuity examples and the axiom audit live here.
 -/
 import PcProofs.CloseWorldEx
+import PcProofs.CloseWorld2
 
 namespace Pc.C01Closed
 open Pc.Top Pc.Close Nat PcGen.ApiConst
@@ -49,17 +50,30 @@ theorem nested_calls_are_pi (W : World) {B : ℕ} (h : W.OK B) (pi : ℕ → ℕ
     (fun n hn _ => W.phiExec h n (hphi n hn)) hrec
 
 /-- **`pi_api_eq_pi`** — `pi(int128_t x)` (api.cpp) for EVERY int128 `x`: negative → 0; `x ≤ INT64_MAX` → cache / `pi_legendre` / `pi_meissel` /
-    `pi_gourdon_64`; above → `pi_gourdon_128`.  Hypotheses: (F) `h.float`, `GourdonEnv` in `hex`; (O) `hex`, `hrec`, `PhiRunOK.order`;
-    (L) `PhiRunOK.lit`; (S) `h.size`, reach fields of `hex`; (T) `PhiRunOK.prime0/primes/cache`, `h.phiVec`.  Result: π(x), or `badRun` for a recorded
-    D history that is not a run. -/
+    `pi_gourdon_64`; above → `pi_gourdon_128`.  The tables are those of the route that is taken (`W.tables (x > INT64_MAX)`: `uint32_t` factor-table
+    entries only inside `pi_gourdon_128`, D.cpp:311); the nested `pi_noprint` calls are 64-bit (`W.Nested` is over `W.tables false`).
+    Hypotheses: (F) `h.float`, `GourdonEnv` in `hex`; (O) `hex`, `hrec`, `PhiRunOK.order`; (L) `PhiRunOK.lit`; (S) `h.size`, reach fields of `hex`;
+    (T) `PhiRunOK.prime0/primes/cache`, `h.phiVec`.  Result: π(x), or `badRun` for a recorded D history that is not a run. -/
 theorem pi_api_eq_pi (W : World) {B : ℕ} (h : W.OK B) (pi : ℕ → ℕ) (x : ℤ) (hx : x < 2 ^ 127) (threads : ℤ) (isPrint : Bool)
     (r : ApiRun)
     (hphi : ∀ n : ℕ, (n : ℤ) ≤ x → maxCached < n → n ≤ meisselMax → W.PhiRunOK n)
     (hrec : W.Nested B pi x)
-    (hex : (maxCached : ℤ) < x → ApiExecC (W.tables false) B (decide ((PiApi.int64Max : ℤ) < x)) x.toNat r) :
-    piApi128 (W.tables false) W.phi pi x threads isPrint r = .ok (π x.toNat : ℤ) ∨
-      piApi128 (W.tables false) W.phi pi x threads isPrint r = .error (.hard .badRun) :=
-  W.pi_api h pi x hx threads isPrint r hphi hrec hex
+    (hex : (maxCached : ℤ) < x →
+      ApiExecC (W.tables (decide ((PiApi.int64Max : ℤ) < x))) B (decide ((PiApi.int64Max : ℤ) < x)) x.toNat r) :
+    piApi128 (W.tables (decide ((PiApi.int64Max : ℤ) < x))) W.phi pi x threads isPrint r = .ok (π x.toNat : ℤ) ∨
+      piApi128 (W.tables (decide ((PiApi.int64Max : ℤ) < x))) W.phi pi x threads isPrint r = .error (.hard .badRun) :=
+  W.pi_api_w h pi x hx threads isPrint r hphi hrec hex
+
+/-- **`pi_gourdon_eq_pi`** — `pi_gourdon_64(x)` (`wide = false`) / `pi_gourdon_128(x)` (`wide = true`, `x` accepted by the range check) over the
+    tables of its own instantiation, `x < 2` or `x ≥ 2401` -/
+theorem pi_gourdon_eq_pi (W : World) {B : ℕ} (h : W.OK B) (pi : ℕ → ℕ) (wide : Bool) (x : ℤ) (hx : InType wide x)
+    (hsmall : x < 2 ∨ 2401 ≤ x) (threads : ℤ) (isPrint : Bool) (r : GRun)
+    (hphi : ∀ n : ℕ, (n : ℤ) < x → maxCached < n → n ≤ meisselMax → W.PhiRunOK n)
+    (hrec : W.Nested B pi x)
+    (hex : 2 ≤ x → GExecC (W.tables wide) B wide x.toNat r) :
+    piGourdon (W.tables wide) pi wide x threads isPrint r = .ok (π x.toNat : ℤ) ∨
+      piGourdon (W.tables wide) pi wide x threads isPrint r = .error (.hard .badRun) :=
+  W.pi_gourdon h pi wide x hx hsmall threads isPrint r hphi hrec hex
 
 /-- **`pi_gourdon_64_eq_pi`** — `pi_gourdon_64(x)` for every int64 `x` with `x < 2` or `x ≥ 2401`: `Sigma`, `Phi0`, `AC` (A, C1, C2 over the
     segments), `B` (over the real iterator), `D` each by its real control flow; `ac - b + d + phi0 + sigma = π(x)`. -/
@@ -116,10 +130,12 @@ example := pi_deleglise_rivat_64_eq_pi exWorld exWorld_ok Nat.primeCounting 1000
   exDrRun (fun n _ _ _ => exWorld_phiRunOK n) exWorld_nested (fun _ => exDrExec_world)
 /-- `pi(int128_t)` at a Legendre-route argument: the value is π(50000) (no `badRun` possible below 10^8) -/
 example : piApi128 (exWorld.tables false) exWorld.phi Nat.primeCounting 50000 1 false exApiRun = .ok (π 50000 : ℤ) := by
+  have hd : decide ((PiApi.int64Max : ℤ) < 50000) = false := by decide
   have h := pi_api_eq_pi exWorld exWorld_ok Nat.primeCounting 50000 (by norm_num) 1 false exApiRun
     (fun n _ _ _ => exWorld_phiRunOK n)
     (fun n hn h63 => exWorld_nested n (lt_trans hn (by norm_num)) h63)
-    (fun _ => ⟨fun h _ => absurd h (by decide), fun h => absurd h (by decide)⟩)
+    (fun _ => by rw [hd]; exact ⟨fun h _ => absurd h (by decide), fun h => absurd h (by decide)⟩)
+  rw [hd] at h
   rcases h with h | h
   · exact h
   · exfalso
@@ -135,6 +151,7 @@ end Pc.C01Closed
 #print axioms Pc.C01Closed.world_tables_ok
 #print axioms Pc.C01Closed.nested_calls_are_pi
 #print axioms Pc.C01Closed.pi_api_eq_pi
+#print axioms Pc.C01Closed.pi_gourdon_eq_pi
 #print axioms Pc.C01Closed.pi_gourdon_64_eq_pi
 #print axioms Pc.C01Closed.pi_deleglise_rivat_64_eq_pi
 #print axioms Pc.C01Closed.pi_api_eq_pi_generic
